@@ -26,6 +26,8 @@ def _map(a, f):
 
 
 def _elog(x):
+    if hasattr(x, "vsym_log"):
+        return x.vsym_log()
     if isinstance(x, Lin):
         return x.log()
     if isinstance(x, Log):
